@@ -126,7 +126,7 @@ func init() {
 	})
 	register(&propDef{
 		id: "C09", level: "exploration", quickRuns: 192, thoroughRuns: 4000, wallPerRun: 5 * time.Minute,
-		rule:        "Direction 1: in C01/C02/C03-style runs the tap must decode EVERY segment a real endpoint emits with the user's credential using the reference codec (key slot within +-1 of the emission instant, documented field ranges, nonce progression per transport, tag placement, low-entropy canonical form); an undecodable emitted segment is the violation. Direction 2: a reference client drives a real server and a reference server answers a real client (TCP and UDP, loss-free link) using every freedom the document allows - padding lengths 0..255 in each position, any valid half-mask/rotation/mode and either padding bit, maximal payloads (32768 / 32764 in mode 32), piggy-backed open payload up to 1024 bytes, ack-only segments in between; the real application must receive exactly the bytes (PRF echo).",
+		rule:        "Direction 1: in C01/C02/C03-style runs the tap must decode EVERY segment a real endpoint emits with the user's credential using the reference codec (key slot within +-1 of the emission instant, documented field ranges, nonce progression per transport, tag placement, low-entropy canonical form); an undecodable emitted segment is the violation. Direction 2: a reference client drives a real server and a reference server answers a real client (TCP and UDP, loss-free link) using every freedom the document allows - padding lengths 0..255 in each position, any valid half-mask/rotation/mode and either padding bit, maximal payloads (32768 / 32764 in mode 32), piggy-backed open payload up to 1024 bytes, ack-only segments in between; the real application must receive exactly the bytes (PRF echo). User names up to the documented 64 bytes (30 % of users get 47..64-byte names); on every emitted nonce (first segment of each TCP direction, every UDP datagram) the last four bytes must be SHA-256(user || nonce[0:16])[0:4].",
 		assumptions: []string{"refproto (written only from docs/protocol.md) is the trusted base and shares no code with /repo", "UDP reference peers run on a loss-free link: they implement acknowledgements, not recovery"},
 		components:  realComponents,
 		gen: func(master uint64, idx int, tier string) *spec.RunSpec {
